@@ -91,14 +91,20 @@ def build(case):
     from pmutt.reaction.bep import BEP
     from pmutt import pmutt_list_to_dict
     nk = case['opts'].get('numkind', 'float')
-    sites = [CatSite(name=s['name'], site_density=s['sden'], density=_num(s['dens'], nk), bulk_specie=s['bulk'])
-             for s in case['sites']]
+    mk_site = lambda s: CatSite(name=s['name'], site_density=s['sden'], density=_num(s['dens'], nk),
+                                bulk_specie=s['bulk'])
+    sites = [mk_site(s) for s in case['sites']]
+    # 'shared': the species of a site hold ONE CatSite object; 'separate': each its own equal object;
+    # 'roundtrip': the Reactions object goes through to_dict / from_dict (separate objects again)
+    mode = case['opts'].get('site_objs', 'shared')
+    has_bep = any(d.get('kind') == 'bep' for d in case.get('ts', []))
 
     def nasa(d):
         a = [d['a1'], d['a2'], 0., 0., 0., d['a6'], d['a7']]
         kw = {}
         if d['site']:
-            kw = {'cat_site': sites[d['site'] - 1], 'n_sites': _num(float(d['occ']) if nk == 'float' else d['occ'], nk)}
+            kw = {'cat_site': sites[d['site'] - 1] if mode == 'shared' else mk_site(case['sites'][d['site'] - 1]),
+                  'n_sites': _num(float(d['occ']) if nk == 'float' else d['occ'], nk)}
         return Nasa(name=d['name'], T_low=100., T_mid=1500., T_high=4000., a_low=a, a_high=a,
                     phase=d['ph'], elements=dict(d['els']), **kw)
     species = [nasa(d) for d in case['species']]
@@ -122,7 +128,11 @@ def build(case):
             if r['ts'] and case['ts'][r['ts'] - 1].get('kind') == 'bep':
                 ts[r['ts'] - 1].reaction = rx
         rxs.append(rx)
-    return sites, species, rxs, Reactions(reactions=rxs)
+    reactions = Reactions(reactions=rxs)
+    if mode == 'roundtrip' and not has_bep:
+        reactions = Reactions.from_dict(reactions.to_dict())
+        rxs = list(reactions.reactions)
+    return sites, species, rxs, reactions
 
 
 def project_mech(case):
@@ -410,7 +420,7 @@ EA_ADS_ACTS = ['get_HoRT_act', 'get_GoRT_act']
 # every unit pmutt.constants.R documents (without the /K)
 UNITS = ['J/mol', 'kJ/mol', 'L kPa/mol', 'cm3 kPa/mol', 'm3 Pa/mol', 'cm3 MPa/mol', 'm3 bar/mol',
          'L bar/mol', 'L torr/mol', 'cal/mol', 'kcal/mol', 'L atm/mol', 'cm3 atm/mol', 'eV', 'Eh', 'Ha']
-FLOATS = [' .3E', '.3E', ' .2E', '.5E', ' .4E', '.1E', '.0E', ' .3e']
+FLOATS = [' .3E', '.3E', ' .2E', '.5E', ' .4E', '.1E', '.0E', ' .3e', '+.3E', '+.2e']   # sign options ' ', '+', none
 SDELIMS = ['+', ' + ', '+ ']
 RDELIMS = ['=', '<=>', '=>', ' = ', ' <=> ', ' => ']
 CDELIMS = ['  ', ' ', '    ', '\t']
@@ -454,7 +464,7 @@ def _options(rnd, species, need_ts_free, runs=None, k=0):
          'sd': SDELIMS[k % 3], 'rd': RDELIMS[(k // 3) % 6], 'cd': CDELIMS[(k // 2) % 4],
          'sden_op': SDEN_OPS[k % 5], 'mw': k % 3 != 0,
          'ea_act': ea_acts[(k // 3) % len(ea_acts)], 'ea_ads_act': EA_ADS_ACTS[(k // 5) % 2],
-         'ea_ff': rnd.choice([' .2E', '.2E', ' .3E', '.4E', ' .2e']), 'ea_rd': rnd.choice(['<=>', '=', ' <=> ', '=>']),
+         'ea_ff': rnd.choice([' .2E', '.2E', ' .3E', '.4E', ' .2e', '+.2E']), 'ea_rd': rnd.choice(['<=>', '=', ' <=> ', '=>']),
          'tflow_ff': rnd.choice(['.3E', '.2E', ' .4E', '.5E', '.3e']),
          'tube_ff': rnd.choice([' .3f', '.3f', ' .5f', '.2E']),
          'newline': ['\n', '\r\n'][(k // 4) % 2]}
@@ -465,7 +475,7 @@ def _options(rnd, species, need_ts_free, runs=None, k=0):
     if k % 12 == 5 and not need_ts_free:                   # every option left at its documented default
         o = dict(DEFAULTS)
         o['defaults'] = True
-    o.update({'numkind': numkind, 'rx_container': ['Reactions', 'list'][(k // 3) % 2],
+    o.update({'site_objs': ['shared', 'separate', 'roundtrip'][(k // 2) % 3], 'numkind': numkind, 'rx_container': ['Reactions', 'list'][(k // 3) % 2],
               'seq_container': ['list', 'tuple', 'ndarray'][(k // 2) % 3], 'conds': conds, 'fracs': fracs})
     return o
 
@@ -721,7 +731,9 @@ def _exercised(cases, traces):
         'all_species_in_tube', 'all_defaults', 'newline_crlf', 'rx_given_as_list', 'rx_given_as_Reactions',
         'from_string_reactions', 'bep_transition_states', 'coefficient_3', 'same_species_both_sides',
         'occupancy_above_1', 'stick_int_1', 'surface_rx_with_bulk_reactant', 'surface_rx_with_bulk_product',
-        'A_species_witnesses', 'A_species_witnesses_with_bulk_reactant', 'A_species_witnesses_with_ts')}
+        'A_species_witnesses', 'A_species_witnesses_with_bulk_reactant', 'A_species_witnesses_with_ts',
+        'site_objs_shared_2plus_adsorbates', 'site_objs_separate_2plus_adsorbates',
+        'site_objs_roundtrip_2plus_adsorbates', 'plus_sign_format_files_read_back')}
     for m in ACTS:
         ex['act_' + m] = 0
     for m in ADS_ACTS:
@@ -798,6 +810,17 @@ def _exercised(cases, traces):
         ex['bep_transition_states'] += sum(1 for t in case['ts'] if t.get('kind') == 'bep')
         ex['coefficient_3'] += sum(c == 3 for r in case['rx'] for c, i in r['lhs'] + r['rhs'])
         ex['same_species_both_sides'] += sum(bool(set(i for c, i in r['lhs']) & set(i for c, i in r['rhs'])) for r in case['rx'])
+        per_site = {}
+        for i in part:
+            if sp[i - 1]['ph'] != 'G' and not sp[i - 1]['bulk']:
+                per_site[sp[i - 1]['site']] = per_site.get(sp[i - 1]['site'], 0) + 1
+        mode = o.get('site_objs', 'shared')
+        if mode == 'roundtrip' and any(t.get('kind') == 'bep' for t in case['ts']):
+            mode = 'separate'
+        ex['site_objs_%s_2plus_adsorbates' % mode] += any(v >= 2 for v in per_site.values())
+        ex['plus_sign_format_files_read_back'] += sum(
+            1 for e in events if e['ev'] == 'read' and o['ff'].startswith('+')
+            and ((True in kinds) if e['file'] == 'gas' else (False in kinds)))
         nonads = [r for r in case['rx'] if not r['ads']]
         ex['surface_rx_with_bulk_reactant'] += sum(any(sp[i - 1]['bulk'] for c, i in r['lhs']) for r in nonads)
         ex['surface_rx_with_bulk_product'] += sum(any(sp[i - 1]['bulk'] for c, i in r['rhs']) for r in nonads)
